@@ -1,4 +1,6 @@
 import Driver.C04
+import Driver.C03Avl
+import Driver.C11_Args
 import Driver.C08T
 import Driver.C16Incl
 import Driver.C12Env
@@ -58,6 +60,8 @@ partial def loop (h : IO.FS.Stream) (out : IO.FS.Stream) (f : String → String)
   loop h out f
 
 def modes : List (String × (String → String)) := [
+  ("c03avl", C03Avl.handle),
+  ("c11arg", C11Args.handle),
   ("c04p", C04.handleParams),
   ("c08t", C08T.handle),
   ("c07-filter", C07.handleFilter),
